@@ -381,31 +381,43 @@ def mk_translation_api(code_id, api, style, include_stop=False):
     ncbi = dict((c[1], c[0]) for c in G.code_mapping)[code_id]
     new_type = style == "new"
 
-    def check(a: int, b: int, c: int) -> bool:
-        """
-        pre: 0 <= a <= 3 and 0 <= b <= 3 and 0 <= c <= 3
-        post: _
-        """
+    def call(seq):
         import cogent3
 
-        _ = (ncbi, new_type)
-        _use_symbolic_kernel(False)
-        codon = "TCAG"[a] + "TCAG"[b] + "TCAG"[c]
-        seq = "ATGCCA" + codon
-        if not W.PLAIN:
-            # the sequence constructors hand the text to C-level translate / numpy at once: realise it here (CrossHair forks on the
-            # realised value, the 64 codons are still exhausted) instead of ~12 solver decisions per codon inside the string proxies
-            from crosshair import deep_realize
-
-            seq = deep_realize(seq)
-        aa = ncbi[16 * a + 4 * b + c]
         kw = {"include_stop": True} if include_stop else {}
         if api == "seq":
-            got = str(cogent3.make_seq(seq, name="s1", moltype="dna", new_type=new_type).get_translation(gc=code_id, **kw))
-        elif api == "coll":
-            got = str(cogent3.make_unaligned_seqs({"s1": seq}, moltype="dna", new_type=new_type).get_translation(gc=code_id, **kw).get_seq("s1"))
-        else:
-            got = str(cogent3.make_aligned_seqs({"s1": seq}, moltype="dna", new_type=new_type).get_translation(gc=code_id, **kw).get_seq("s1"))
+            return str(cogent3.make_seq(seq, name="s1", moltype="dna", new_type=new_type).get_translation(gc=code_id, **kw))
+        if api == "coll":
+            return str(cogent3.make_unaligned_seqs({"s1": seq}, moltype="dna", new_type=new_type).get_translation(gc=code_id, **kw).get_seq("s1"))
+        return str(cogent3.make_aligned_seqs({"s1": seq}, moltype="dna", new_type=new_type).get_translation(gc=code_id, **kw).get_seq("s1"))
+
+    # warm-up outside tracing: the moltype / alphabet / genetic-code objects build their tables lazily; built under tracing they make
+    # the first path differ from its own replay (CrossHair then drops every path: "unable to meet precondition")
+    _use_symbolic_kernel(False)
+    for warm in ("ATGCCATTT", "ATGCCATAA", "ATGCCATGA", "ATGCCAAGA"):
+        try:
+            call(warm)
+        except Exception:  # noqa
+            pass
+
+    def check(k: int) -> bool:
+        """
+        pre: 0 <= k <= 63
+        post: _
+        """
+        _ = (ncbi, new_type)
+        _use_symbolic_kernel(False)
+        if not W.PLAIN:
+            # the constructors hand the text to C-level translate / numpy at once: the codon number (NCBI order, 16a+4b+c) is realised
+            # up front (CrossHair forks on the realised value, all 64 codons are still exhausted)
+            from crosshair import deep_realize
+
+            k = deep_realize(k)
+        a, b, c = k // 16, (k // 4) % 4, k % 4
+        codon = "TCAG"[a] + "TCAG"[b] + "TCAG"[c]
+        seq = "ATGCCA" + codon
+        aa = ncbi[16 * a + 4 * b + c]
+        got = call(seq)
         if aa == "*" and not W.reach("stop"):
             return False
         if not W.reach("end"):
